@@ -114,19 +114,23 @@ AllOf(s, P(_)) == \A i \in 1..Len(s) : P(s[i])
 \* univ: split like str.splitlines (all boundaries, CR LF once), else at LF only;
 \* keep: the terminator stays on the line (iteration over a file object)
 \* a final piece is a line only when it is not empty -- both for splitlines and for files
-RECURSIVE SplitScan(_, _, _, _, _, _)
-SplitScan(s, univ, keep, i, st, acc) ==
-    IF i > Len(s)
-    THEN IF st <= Len(s) THEN Append(acc, SubSeq(s, st, Len(s))) ELSE acc
-    ELSE IF univ /\ s[i] = CR /\ i < Len(s) /\ s[i + 1] = LF
-         THEN SplitScan(s, univ, keep, i + 2, i + 2, Append(acc, SubSeq(s, st, IF keep THEN i + 1 ELSE i - 1)))
-         ELSE IF (univ /\ IsUBoundary(s[i])) \/ (~univ /\ s[i] = LF)
-              THEN SplitScan(s, univ, keep, i + 1, i + 1, Append(acc, SubSeq(s, st, IF keep THEN i ELSE i - 1)))
-              ELSE SplitScan(s, univ, keep, i + 1, st, acc)
+\* (the scan recurses per character inside a line and per line, never over the whole text)
+RECURSIVE NextBoundary(_, _, _)        \* first boundary character at or after i, Len(s) + 1 if none
+NextBoundary(s, univ, i) ==
+    IF i > Len(s) THEN i
+    ELSE IF (univ /\ IsUBoundary(s[i])) \/ (~univ /\ s[i] = LF) THEN i
+    ELSE NextBoundary(s, univ, i + 1)
+RECURSIVE SplitScan(_, _, _, _, _)
+SplitScan(s, univ, keep, st, acc) ==
+    IF st > Len(s) THEN acc
+    ELSE LET b == NextBoundary(s, univ, st) IN
+         IF b > Len(s) THEN Append(acc, SubSeq(s, st, Len(s)))
+         ELSE LET e == IF univ /\ s[b] = CR /\ b < Len(s) /\ s[b + 1] = LF THEN b + 1 ELSE b IN
+              SplitScan(s, univ, keep, e + 1, Append(acc, SubSeq(s, st, IF keep THEN e ELSE b - 1)))
 
-SplitLines(s) == SplitScan(s, TRUE, FALSE, 1, 1, <<>>)      \* s.splitlines()
-FileLines(s)  == SplitScan(s, FALSE, TRUE, 1, 1, <<>>)      \* list(io.StringIO(s)) / io.BytesIO
-LFLines(s)    == SplitScan(s, FALSE, FALSE, 1, 1, <<>>)     \* negative control only
+SplitLines(s) == SplitScan(s, TRUE, FALSE, 1, <<>>)      \* s.splitlines()
+FileLines(s)  == SplitScan(s, FALSE, TRUE, 1, <<>>)      \* list(io.StringIO(s)) / io.BytesIO
+LFLines(s)    == SplitScan(s, FALSE, FALSE, 1, <<>>)     \* negative control only
 
 ----------------------------------------------------------------------------
 \* transcription: Deb822.validate_input
@@ -235,7 +239,7 @@ SetField(fs, k, v) == IF \E i \in 1..Len(fs) : SameName(fs[i].k, k)
                       ELSE Append(fs, [k |-> k, v |-> v])
 \* self[curkey] = content : Deb822.__setitem__ validates
 Commit(a, key, content) == IF key = <<>> THEN a
-                           ELSE IF Validate(content) # "ok" THEN [st |-> "ValueError", fields |-> a.fields]
+                           ELSE IF Validate(content) # "ok" THEN [st |-> "EXC:ValueError", fields |-> a.fields]
                            ELSE [st |-> "ok", fields |-> SetField(a.fields, key, content)]
 
 \* _internal_parser over the payload lines
